@@ -39,6 +39,10 @@ def digest(state_handler):
 def main():
     mode, ini, seed, outdir, cores, delays = sys.argv[1], sys.argv[2], int(sys.argv[3]), sys.argv[4], int(sys.argv[5]), \
         json.loads(sys.argv[6])
+    arrival = {"policy": "natural", "seed": 0}
+    if isinstance(delays, dict):
+        arrival = delays.get("arrival", arrival)
+        delays = delays.get("tables", [])
     scratch = os.environ["VERIF_SCRATCH"]
     sys.path.insert(0, scratch)
     if os.environ.get("VERIF_COVERAGE"):     # development aid, see vlib/cover.py
@@ -112,6 +116,39 @@ def main():
         factory.build_from_config(config, to_camel_case(config.get("Run", "setting")), "jellyfysh.setting")
         if mode == "multi":
             from jellyfysh.mediator.multi_process_mediator.multi_process_mediator import MultiProcessMediator
+            from jellyfysh.mediator.multi_process_mediator import multi_process_mediator as mpm_module
+            if arrival["policy"] != "natural":
+                # The harness owns the order in which the mediator *sees* the workers' answers: the module's
+                # `connection.wait` hands over one ready pipe at a time, chosen by a generator seeded from the case
+                # (uniformly, or preferring / deferring answers that are pre-computed out-states).
+                real_connection = mpm_module.connection
+                chooser = random.Random(arrival["seed"])
+                holder = {}
+
+                class Arrival(object):
+                    def __getattr__(self, name):
+                        return getattr(real_connection, name)
+
+                    def wait(self, pipes, timeout=None):
+                        ready = real_connection.wait(pipes, timeout)
+                        if not ready:
+                            return ready
+                        time.sleep(0.0005)       # let answers that are about to arrive join the choice
+                        ready = real_connection.wait(pipes, 0) or ready
+                        if len(ready) > 1 and arrival["policy"] in ("out-first", "out-last") and "m" in holder:
+                            states = holder["m"]._event_handlers_state
+                            outs = [p for p in ready if getattr(states.get(p), "name", "") == "out_state_started"]
+                            rest = [p for p in ready if p not in outs]
+                            group = (outs or rest) if arrival["policy"] == "out-first" else (rest or outs)
+                            return [group[chooser.randrange(len(group))]]
+                        return [ready[chooser.randrange(len(ready))]]
+                mpm_module.connection = Arrival()
+                real_run = MultiProcessMediator.run
+
+                def run(self):
+                    holder["m"] = self
+                    return real_run(self)
+                MultiProcessMediator.run = run
             real_start = MultiProcessMediator._start_processes
 
             def start_processes(self):
